@@ -393,18 +393,22 @@ func C16(c *core.Ctx) {
 		c16Raw(c, wname, w, raw, arena)
 		// a quote parsed from this world earlier must not be affected by anything done since
 		// (parsing and verifying other quotes included)
-		if keepAny, err := abi.QuoteToProto(append([]byte{}, w.Quote.Raw...)); err == nil {
-			kq := keepAny.(*pb.QuoteV4)
-			if ser, err := abi.QuoteToAbiBytes(kq); err == nil {
-				earlier = append(earlier, kept{wname, kq, ser})
-			}
-		}
 		gt := ""
-		for _, k := range earlier {
-			if ser, err := abi.QuoteToAbiBytes(k.q); err != nil || !bytes.Equal(ser, k.ser) {
-				gt = fmt.Sprintf("the quote parsed earlier from %s changed while later quotes were parsed and checked (it shares memory with something the library re-uses)", k.name)
-				break
+		if p := safely(func() {
+			if keepAny, err := abi.QuoteToProto(append([]byte{}, w.Quote.Raw...)); err == nil {
+				kq := keepAny.(*pb.QuoteV4)
+				if ser, err := abi.QuoteToAbiBytes(kq); err == nil {
+					earlier = append(earlier, kept{wname, kq, ser})
+				}
 			}
+			for _, k := range earlier {
+				if ser, err := abi.QuoteToAbiBytes(k.q); err != nil || !bytes.Equal(ser, k.ser) {
+					gt = fmt.Sprintf("the quote parsed earlier from %s changed while later quotes were parsed and checked (it shares memory with something the library re-uses)", k.name)
+					break
+				}
+			}
+		}); p != nil {
+			gt = fmt.Sprintf("parsing / serialising a valid quote panicked: %v", p)
 		}
 		c.Add(&core.Case{Class: "earlier-results", Desc: fmt.Sprintf("%d quotes parsed earlier re-serialised after %s", len(earlier), wname), SkipModel: true, Impl: core.Ls(), GT: gt, NonTrivial: true})
 	}
